@@ -389,6 +389,9 @@ fn grid(tier: &str, max_tick: u64) -> Vec<(usize, Duration, Emb)> {
             }
         }
     }
+    // far-future timestamps (hundreds of simulated years) with wide buckets
+    let wh = Duration::from_secs(1 << 32);
+    out.push((8, wh, Emb::new("huge", 8, wh, max_tick, 3)));
     // the default parameterisation of the Builder
     let wd = Duration::from_secs_f64(0.0025);
     out.push((1028, wd, Emb::new("w", 1028, wd, max_tick, 7)));
